@@ -508,6 +508,38 @@ def default_fetcher_probe():
     return asked
 
 
+def awkward_href_probe(seed=0):
+    """hrefs whose characters matter inside the START comment resolveImports writes (`*/`, quotes, backslash-free
+    punctuation, non-ASCII): flattening must not raise, must keep the imported rules, and the flat sheet must re-parse
+    to itself.  Returns a list of failure descriptions."""
+    import random
+    cp = _cp()
+    rnd = random.Random(seed)
+    out = []
+    hrefs = ['a*/b.css', '*/', 'a*/*/b.css', '**//x.css', "a'b.css", 'a b.css', 'a/*b.css', 'é*/.css', 'a)b(.css', 'a;b,c.css']
+    for _ in range(40):
+        hrefs.append(''.join(rnd.choice(['*', '/', '*/', '/*', 'a', '.', ' ', '-', "'", 'é', '(', ')']) for _ in range(rnd.randint(1, 8))) + 'x')
+    for h in hrefs:
+        for media in ('', ' print'):
+            src = '@import url("%s")%s; x{left:0}' % (h, media)
+            try:
+                sh = cp.CSSParser(fetcher=lambda u: (None, 'a{top:0}')).parseString(src, href=TOP)
+                if not sh.cssRules or sh.cssRules[0].type != 3 or sh.cssRules[0].href != h:
+                    continue          # not an import with this href (e.g. it ends in a blank): nothing to flatten
+                flat = cp.resolveImports(sh)
+                text = flat.cssText
+                styles = []
+                for r in flat.cssRules:
+                    styles += [r.selectorText] if r.type == 1 else [q.selectorText for q in r.cssRules if q.type == 1] if r.type == 4 else []
+                if styles != ['a', 'x']:
+                    out.append('resolveImports(%r): style rules %r, expected the imported a and then x' % (src, styles))
+                elif cp.parseString(text).cssText != text:
+                    out.append('resolveImports(%r): the flat sheet %r does not re-parse to itself' % (src, text))
+            except Exception as e:
+                out.append('resolveImports(%r) raised %s: %s' % (src, type(e).__name__, str(e)[:100]))
+    return out
+
+
 # ------------------------------------------------------------------ entry points
 
 def gen_cases(tier):
